@@ -28,3 +28,4 @@ import PvModel.Props.C17Enforce
 #print axioms Pv.C17_labelling_separates
 #print axioms Pv.C17_each_assignment_once
 #print axioms Pv.C17_assignments_bijection
+#print axioms Pv.C17_answer_values
